@@ -1336,6 +1336,8 @@ impl<'a> Cx<'a> {
             (BinOp::Add(_), T::Usize) => Ok((X::Bin("+".into(), bx(l), bx(r)), lt)),
             (BinOp::Mul(_), T::Usize) => Ok((X::Bin("*".into(), bx(l), bx(r)), lt)),
             (BinOp::Sub(_), T::Usize) => Ok((self.hoist(X::app("Slice.usizeSub", vec![l, r])), lt)),
+            // `x % n` with a positive integer literal `n` cannot panic (absmod.rs)
+            (BinOp::Rem(_), T::Usize) if matches!(&r, X::A(lit) if lit.parse::<u64>().map(|v| v > 0).unwrap_or(false)) => Ok((X::Bin("%".into(), bx(l), bx(r)), lt)),
             (BinOp::Rem(_), T::Usize) => Ok((self.hoist(X::app("Slice.usizeRem", vec![l, r])), lt)),
             (BinOp::Lt(_), T::F32) => Ok((X::app("Num.flt", vec![l, r]), T::Bool)),
             (BinOp::Gt(_), T::F32) => Ok((X::app("Num.fgt", vec![l, r]), T::Bool)),
@@ -2405,6 +2407,14 @@ impl<'a> Cx<'a> {
                 Ok((X::app("List.findSome?", vec![f, recv]), T::opt(inner)))
             }
             (T::List(t), "cycle") if none => Ok((X::app("Slice.Stream.cycle", vec![recv]), T::Stream(t.clone()))),
+            // `it.step_by(n)` with a positive integer literal `n` (`step_by(0)` panics): the elements at positions 0, n, 2n, … (absmod.rs)
+            (T::List(_), "step_by") => {
+                let (n, _) = one(self, &T::Usize)?;
+                match &n {
+                    X::A(lit) if lit.parse::<u64>().map(|v| v > 0).unwrap_or(false) => Ok((X::app("Slice.stepBy", vec![n, recv]), rt.clone())),
+                    _ => Err("`step_by` with a step that is not a positive integer literal".into()),
+                }
+            }
             (T::List(_), "take") => Ok((X::app("List.take", vec![one(self, &T::Usize)?.0, recv]), rt.clone())),
             (T::List(_), "skip") => Ok((X::app("List.drop", vec![one(self, &T::Usize)?.0, recv]), rt.clone())),
             (T::Stream(_), "skip") => Ok((X::app("Slice.Stream.skip", vec![one(self, &T::Usize)?.0, recv]), rt.clone())),
@@ -3042,6 +3052,64 @@ impl<'a> Cx<'a> {
         Ok(())
     }
 
+    /// `v.iter_mut().enumerate().for_each(|(i, x)| { body })` where the body may assign the element `x` and outer locals:
+    /// `Slice.mapIdxAccum (fun i st x => body; (x, st)) v st` — the new list and the final state (Model/SliceOps.lean). The body
+    /// must not be able to panic. (absmod.rs: `align_tracks`)
+    fn enum_accum_loop(&mut self, ipat: &Pat, xpat: &Pat, place: &Expr, body: &[Stmt]) -> R<()> {
+        let (list, lt) = self.expr(place, &T::Unknown)?;
+        let et = match lt {
+            T::List(t) => *t,
+            t => return Err(format!("mutable iteration over a value of type {:?}", t)),
+        };
+        let name_of = |p: &Pat| -> R<String> {
+            match p {
+                Pat::Ident(i) if i.subpat.is_none() => Ok(i.ident.to_string()),
+                _ => Err("loop pattern".to_string()),
+            }
+        };
+        let (ivar, xvar) = (name_of(ipat)?, name_of(xpat)?);
+        let st: Vec<&Stmt> = body.iter().collect();
+        let vars: Vec<String> = self.assigned_outer_stmts(&st, &[])?.into_iter().filter(|v| *v != ivar && *v != xvar).collect();
+        let saved_locals = self.locals.clone();
+        let saved_cur = std::mem::take(&mut self.cur);
+        let mut params: Vec<String> = vec![];
+        let r = (|| -> R<X> {
+            params.push(self.declare(&ivar, T::Usize));
+            match vars.len() {
+                0 => params.push("_".into()),
+                1 => params.push(self.locals[&vars[0]].lean.clone()),
+                n => {
+                    let stn = self.fresh_name("st");
+                    params.push(stn.clone());
+                    for (k, v) in vars.iter().enumerate() {
+                        let l = self.locals[v].lean.clone();
+                        self.emit(St::Let(l, tuple_proj(X::A(stn.clone()), k, n)));
+                    }
+                }
+            }
+            params.push(self.declare(&xvar, et.clone()));
+            for s in body {
+                self.stmt(s)?;
+            }
+            let xl = self.locals[&xvar].lean.clone();
+            Ok(X::Tuple(vec![X::A(xl), self.vars_tuple(&vars)]))
+        })();
+        let out = std::mem::replace(&mut self.cur, saved_cur);
+        self.locals = saved_locals;
+        let blk = fuse_tail(Blk { stmts: out, tail: Tail::Val(r?) });
+        if blk.effectful() {
+            return Err("a loop over enumerated `&mut` elements whose body can panic".into());
+        }
+        let f = X::Fun(params, Box::new(blk), false);
+        let init = self.vars_tuple(&vars);
+        let rn = self.fresh_name("r");
+        self.emit(St::Let(rn.clone(), X::app("Slice.mapIdxAccum", vec![f, list, init])));
+        let (n, nv) = self.assign_into(place, X::Field(Box::new(X::A(rn.clone())), "1".into()))?;
+        self.emit(St::Let(n, nv));
+        self.rebind(&vars, Blk { stmts: vec![], tail: Tail::Val(X::Field(Box::new(X::A(rn)), "2".into())) });
+        Ok(())
+    }
+
     fn stmt_method(&mut self, m: &syn::ExprMethodCall) -> R<()> {
         let name = m.method.to_string();
         let args: Vec<&Expr> = m.args.iter().collect();
@@ -3058,6 +3126,16 @@ impl<'a> Cx<'a> {
                     Pat::Type(pt) => (*pt.pat).clone(),
                     p => p.clone(),
                 };
+                // `v.iter_mut().enumerate().for_each(|(i, x)| …)` (absmod.rs)
+                if let (Pat::Tuple(tp), Expr::MethodCall(en)) = (&pat, strip(&m.receiver)) {
+                    if en.method == "enumerate" && en.args.is_empty() && tp.elems.len() == 2 {
+                        if let Expr::MethodCall(im) = strip(&en.receiver) {
+                            if im.method == "iter_mut" && im.args.is_empty() {
+                                return self.enum_accum_loop(&tp.elems[0], &tp.elems[1], &im.receiver, &body);
+                            }
+                        }
+                    }
+                }
                 return self.fold_loop(&pat, &m.receiver, &body);
             }
             return Err("`for_each` without a closure literal".into());
